@@ -344,3 +344,106 @@ pub fn structured_data(rng: &mut Rng, len: usize) -> Vec<u8> {
     v.truncate(len);
     v
 }
+
+/// A valid program (lc=lp=pb=0) ending in one symbol that costs close to the
+/// format's maximum number of input bytes: every adaptive probability on that
+/// symbol's path is first driven to its floor by ~150 codings of the opposite
+/// decision. With distance slot 31 the final match costs about 17.7 bytes; a
+/// higher `slot` (odd, <= 47) needs a history of more than 2^(slot/2+1) bytes.
+pub fn floor_program(rng: &mut Rng, slot: u32) -> Vec<Sym> {
+    use crate::refmodel::lzma::dist_slot;
+    let reps = 150usize;
+    let mut it = Interp::new();
+    let mut prog: Vec<Sym> = Vec::new();
+    let push = |s: Sym, it: &mut Interp, prog: &mut Vec<Sym>| {
+        let ok = it.step(&s);
+        debug_assert!(ok);
+        prog.push(s);
+    };
+    // history large enough for one slot above the target's first-bit opposite
+    let (t_lo, _) = slot_range(slot);
+    let need = {
+        // opposite of the leading bit: if the target's top bit is 0 we need slot 32
+        let top_is_zero = slot & 0x20 == 0;
+        let a = if top_is_zero { slot_range(32).0 + 2 } else { 0 };
+        (t_lo + 2).max(a) as usize + 4096
+    };
+    for _ in 0..64 {
+        push(Sym::Lit(rng.byte()), &mut it, &mut prog);
+    }
+    while it.hist.len() < need {
+        let d = rng.range(1, it.hist.len().min(64) as u64) as u32;
+        push(Sym::Match { dist: d, len: 273 }, &mut it, &mut prog);
+    }
+    // A: length coder high tree towards "not 255", choice/choice2 towards 1
+    // (deepest tree node first: a later, shallower round leaves it untouched)
+    for k in (0..8u32).rev() {
+        let v = (0xFFu32 << (8 - k)) & 0xFF;
+        for _ in 0..reps {
+            push(Sym::Match { dist: 1, len: 18 + v }, &mut it, &mut prog);
+        }
+    }
+    // A2: choice2 towards 0
+    for _ in 0..reps + 50 {
+        push(Sym::Match { dist: 1, len: 10 }, &mut it, &mut prog);
+    }
+    // B: distance slot tree (len_state 3) against the target's path; len 5 also
+    // drives `choice` towards 0; align tree against 0b1111
+    let mut group = 0usize;
+    for i in (0..6u32).rev() {
+        let bit = (slot >> (5 - i)) & 1;
+        // same prefix, opposite bit, zeros below
+        let prefix = slot >> (6 - i) << (6 - i);
+        let opp = prefix | ((bit ^ 1) << (5 - i));
+        let (lo, hi) = slot_range(opp);
+        if lo + 1 > it.hist.len() as u64 {
+            continue; // not reachable with this history: that bit stays cheap
+        }
+        for _ in 0..reps {
+            let mut d = lo;
+            if opp >= 14 {
+                // choose align bits (low 4 bits of the reduced distance)
+                // reverse tree: bit 0 is the root; deepest (bit 3) first
+                let a: u64 = match group.min(3) {
+                    0 => 0b0111,
+                    1 => 0b1011,
+                    2 => 0b1101,
+                    _ => 0b1110,
+                };
+                d = (lo & !0xF) | a;
+                if d > hi || d + 1 > it.hist.len() as u64 {
+                    d = lo;
+                }
+            }
+            debug_assert_eq!(dist_slot(d as u32), opp);
+            push(Sym::Match { dist: d as u32 + 1, len: 5 }, &mut it, &mut prog);
+        }
+        if opp >= 14 {
+            group += 1;
+        }
+    }
+    // some literals to return to state 0
+    for _ in 0..4 {
+        push(Sym::Lit(0x55), &mut it, &mut prog);
+    }
+    // C: is_rep[0] towards "rep": (rep0, lit, lit, lit) cycles
+    for _ in 0..reps {
+        push(Sym::Rep { idx: 0, len: 2 }, &mut it, &mut prog);
+        for _ in 0..3 {
+            push(Sym::Lit(0x55), &mut it, &mut prog);
+        }
+    }
+    // D: is_match[0] towards "literal"
+    for _ in 0..reps + 80 {
+        push(Sym::Lit(0x55), &mut it, &mut prog);
+    }
+    // E: the expensive symbol: from state 0, new match, len 273, target slot,
+    // all direct bits set, align 0b1111
+    let (lo, hi) = slot_range(slot);
+    let d = hi.min(it.hist.len() as u64 - 1).max(lo);
+    push(Sym::Match { dist: d as u32 + 1, len: 273 }, &mut it, &mut prog);
+    for _ in 0..3 {
+        push(Sym::Lit(rng.byte()), &mut it, &mut prog);
+    }
+    prog
+}
